@@ -270,6 +270,10 @@ func (w *Workspace) UpdateFile(path, content string) {
 
 	if !sameStringSlice(oldIncludes, fileIndex.Includes) {
 		w.refreshIncludeTreeLocked()
+	} else if oldIndex == nil {
+		// a file that could not be read when its include line was indexed
+		// enters the tree here, at its place in include order
+		w.reorderResolvedLocked()
 	}
 }
 
